@@ -12,6 +12,8 @@ use core::slice;
 use core::{hint, ptr};
 
 mod alloc;
+#[cfg(hashbrown_verif)]
+pub(crate) mod verif;
 #[cfg(test)]
 pub(crate) use self::alloc::AllocError;
 pub(crate) use self::alloc::{do_alloc, Allocator, Global};
